@@ -32,6 +32,10 @@ enum Op {
     HealthOk(u8),
     ConnFail(u8),
     ConnOk(u8),
+    /// the backend fails a connection after each of its back-off windows closed, until its
+    /// retry budget is spent (= [ConnFail(i), Clock] x 8 as one symbol: a state the depth bound
+    /// would not reach)
+    Exhaust(u8),
     Clock,
     Open(u8),
     Close(u8),
@@ -77,6 +81,9 @@ fn alphabet() -> Vec<Op> {
         v.push(Op::HealthOk(i));
         v.push(Op::ConnFail(i));
         v.push(Op::ConnOk(i));
+        if i == 0 {
+            v.push(Op::Exhaust(i));
+        }
         v.push(Op::Open(i));
         v.push(Op::Close(i));
     }
@@ -104,6 +111,8 @@ fn addr(i: u8) -> SocketAddr {
 struct RefB {
     present: bool,
     healthy: bool,
+    /// a connection failure opened a back-off window that no clock advance or success closed yet
+    in_backoff: bool,
     conns: usize,
     weight: i32,
 }
@@ -136,7 +145,9 @@ fn eligibility(w: &mut World) -> (Vec<u8>, Vec<u8>, Vec<u8>) {
     for i in 0..3u8 {
         if let Some(b) = find(&mut w.map, i) {
             let b = b.borrow();
-            let okay = b.retry_policy.can_try() == Some(RetryAction::OKAY);
+            // the reference's own notion of "inside its failure back-off" (compared with the
+            // implementation's at every selection, see `backoff_disagreement`)
+            let okay = !w.refs[i as usize].in_backoff;
             let normal = b.status == BackendStatus::Normal;
             if normal && okay {
                 failopen.push(i);
@@ -147,6 +158,19 @@ fn eligibility(w: &mut World) -> (Vec<u8>, Vec<u8>, Vec<u8>) {
         }
     }
     (prim, back, failopen)
+}
+
+/// a backend whose retry policy and the reference disagree on being inside a back-off window
+fn backoff_disagreement(w: &mut World) -> Option<(u8, bool)> {
+    for i in 0..3u8 {
+        if let Some(b) = find(&mut w.map, i) {
+            let waiting = b.borrow().retry_policy.can_try() != Some(RetryAction::OKAY);
+            if waiting != w.refs[i as usize].in_backoff {
+                return Some((i, waiting));
+            }
+        }
+    }
+    None
 }
 
 fn index_of(a: &SocketAddr) -> Option<u8> {
@@ -169,7 +193,7 @@ fn apply(w: &mut World, op: Op) -> StepOut {
             w.map.add_backend(CLUSTER, b);
             let r = &mut w.refs[i as usize];
             if !r.present {
-                *r = RefB { present: true, healthy: true, conns: 0, weight };
+                *r = RefB { present: true, healthy: true, in_backoff: false, conns: 0, weight };
             } else {
                 r.weight = weight;
             }
@@ -195,14 +219,36 @@ fn apply(w: &mut World, op: Op) -> StepOut {
                 let mut b = b.borrow_mut();
                 b.retry_policy.fail();
                 b.failures += 1;
+                // every window lasts at least a second and only `Clock` moves time
+                w.refs[i as usize].in_backoff = true;
             }
         }
         Op::ConnOk(i) => {
             if let Some(b) = find(&mut w.map, i) {
                 b.borrow_mut().retry_policy.succeed();
+                w.refs[i as usize].in_backoff = false;
             }
         }
-        Op::Clock => interpose::advance_clock(100 * 1_000_000_000),
+        Op::Exhaust(i) => {
+            for _ in 0..8 {
+                if let Some(b) = find(&mut w.map, i) {
+                    let mut b = b.borrow_mut();
+                    b.retry_policy.fail();
+                    b.failures += 1;
+                }
+                // (100 s: longer than the longest window, 2^6 - 1 s)
+                interpose::advance_clock(100 * 1_000_000_000);
+            }
+            for r in w.refs.iter_mut() {
+                r.in_backoff = false;
+            }
+        }
+        Op::Clock => {
+            interpose::advance_clock(100 * 1_000_000_000);
+            for r in w.refs.iter_mut() {
+                r.in_backoff = false;
+            }
+        }
         Op::Open(i) => {
             if let Some(b) = find(&mut w.map, i) {
                 if b.borrow_mut().inc_connections().is_some() {
@@ -223,6 +269,12 @@ fn apply(w: &mut World, op: Op) -> StepOut {
             w.policy = p;
         }
         Op::Select(_) | Op::SelectConnect | Op::SelectSticky(_) => {
+            if let Some((i, waiting)) = backoff_disagreement(w) {
+                out.bad = Some((
+                    format!("backoff-window-{}", if waiting { "armed-without-failure" } else { "not-armed-after-failure" }),
+                    format!("backend {}: its retry policy says {} although a connection to it {} since the clock last moved", BACKENDS[i as usize].id, if waiting { "wait" } else { "go ahead" }, if waiting { "did not fail" } else { "failed" }),
+                ));
+            }
             let (prim, back, failopen) = eligibility(w);
             let allowed: Vec<u8> = if !prim.is_empty() {
                 prim.clone()
@@ -373,7 +425,12 @@ fn new_world() -> World {
 }
 
 fn digest(w: &mut World) -> Vec<u8> {
+    // product state: the implementation's observable fields and the reference's own record
+    // (two histories the implementation cannot tell apart but the reference can must both be explored)
     let mut s = String::new();
+    for r in &w.refs {
+        s.push_str(&format!("{}{}{}{}{};", r.present as u8, r.healthy as u8, r.in_backoff as u8, r.conns, r.weight));
+    }
     for i in 0..3u8 {
         match find(&mut w.map, i) {
             None => s.push_str("-;"),
